@@ -16,6 +16,11 @@
 //	env    dag.Load(file, params) + the real scheduler running real child processes that dump what they see
 //	loop   start -> model.NewStatus(...).Params -> JSON -> StatusFromJSON -> dag.Load(file, recorded) -> children
 //	out    `output:` capture of given bytes; consumers at distance 1, 2, in the exit handler and in a retry run
+//	       (environment and $OUT expanded on the command line)
+//	subst  parameters that use $C11VAR: the run sees its value; the recorded string must hold the values the run
+//	       saw - the re-load happens in a process where the variable has another value
+//	cli    the real `start -p` command (cmd.Execute) with the parameter string wrapped in quotes as the API client
+//	       does (client.go: fmt.Sprintf(`"%s"`, ...)); start.go strips exactly that pair
 package main
 
 import (
@@ -35,6 +40,7 @@ import (
 	"syscall"
 	"time"
 
+	bdcmd "github.com/ErdemOzgen/blackdagger/cmd"
 	"github.com/ErdemOzgen/blackdagger/internal/dag"
 	"github.com/ErdemOzgen/blackdagger/internal/dag/scheduler"
 	"github.com/ErdemOzgen/blackdagger/internal/logger"
@@ -189,6 +195,7 @@ type Job struct {
 	Names  []string `json:"names"`
 	NPos   int      `json:"npos"`
 	Status string   `json:"status_file,omitempty"`
+	Env    []string `json:"env,omitempty"` // extra environment of the worker
 }
 
 type JobResult struct {
@@ -273,6 +280,7 @@ func outDag(dir string, withErr bool) string {
 		"  - name: c1a\n    command: " + me + " argdump " + filepath.Join(dir, "p-d1arg.json") + " $OUT\n    depends:\n      - c1\n" +
 		"  - name: c2\n    command: " + me + " envdump " + filepath.Join(dir, "p-d2.json") + " OUT\n    depends:\n      - c1a\n" +
 		"  - name: c3\n    command: " + me + " failonce " + filepath.Join(dir, "marker") + " envdump " + filepath.Join(dir, "p-retry.json") + " OUT\n    depends:\n      - c2\n" +
+		"  - name: c3a\n    command: " + me + " argdump " + filepath.Join(dir, "p-retryarg.json") + " $OUT\n    depends:\n      - c3\n" +
 		"handlerOn:\n  exit:\n    command: " + me + " envdump " + filepath.Join(dir, "p-handler.json") + " OUT\n"
 	f := filepath.Join(dir, "c11out.yaml")
 	if err := os.WriteFile(f, []byte(y), 0644); err != nil {
@@ -293,6 +301,16 @@ func workerMain() {
 		os.Stdout.Write(b)
 	}
 	switch j.Mode {
+	case "cli":
+		// the real command line entry point: blackdagger start -p "<params>" file
+		f := envDag(j.Dir, j.Names, j.NPos)
+		os.Setenv("HOME", j.Dir)
+		os.Setenv("BLACKDAGGER_HOME", filepath.Join(j.Dir, ".blackdagger"))
+		os.Args = []string{"blackdagger", "start", "-q", "-p", j.Params, f}
+		devnull, _ := os.OpenFile(os.DevNull, os.O_WRONLY, 0)
+		os.Stdout, os.Stderr = devnull, devnull
+		_ = bdcmd.Execute()
+		os.Exit(0)
 	case "env", "reload":
 		f := filepath.Join(j.Dir, "c11env.yaml")
 		if j.Mode == "env" {
@@ -404,6 +422,7 @@ func workerMain() {
 		}
 		_, res.Status = schedule(d, g, j.Dir)
 		res.Probes["retry"] = readProbe(filepath.Join(j.Dir, "p-retry.json"))
+		res.Probes["retryarg"] = readProbe(filepath.Join(j.Dir, "p-retryarg.json"))
 	}
 	put()
 }
@@ -417,7 +436,7 @@ func cleanEnv() []string {
 		if i := strings.IndexByte(kv, '='); i >= 0 {
 			k = kv[:i]
 		}
-		if k == "OUT" || (k != "" && strings.Trim(k, "0123456789") == "") {
+		if k == "OUT" || k == "C11VAR" || (k != "" && strings.Trim(k, "0123456789") == "") {
 			continue
 		}
 		e = append(e, kv)
@@ -433,7 +452,7 @@ func runJob(j Job, watchdog time.Duration) (*JobResult, bool) {
 	var out bytes.Buffer
 	cmd.Stdout = &out
 	cmd.Stderr = io.Discard
-	cmd.Env = cleanEnv()
+	cmd.Env = append(cleanEnv(), j.Env...)
 	cmd.SysProcAttr = &syscall.SysProcAttr{Setpgid: true}
 	if err := cmd.Start(); err != nil {
 		return &JobResult{Err: "spawn: " + err.Error()}, false
@@ -518,6 +537,57 @@ func execCase(c *Case, base string) {
 			for k, v := range r2.Probes {
 				c.Probes["re-"+k] = v
 			}
+		}
+	case "subst":
+		c.S = render(c.Items)
+		dir, err := os.MkdirTemp(base, "s")
+		if err != nil {
+			panic(err)
+		}
+		defer os.RemoveAll(dir)
+		names, npos := namesOf(c.Items)
+		r, hang := runJob(Job{Mode: "env", Dir: dir, Params: c.S, Names: names, NPos: npos, Env: []string{"C11VAR=alpha"}}, 20*time.Second)
+		c.Hang, c.Err, c.Status = hang, r.Err, r.Status
+		if r.Params != nil {
+			c.Params = r.Params
+		}
+		c.Recorded = r.Recorded
+		c.Probes = map[string]*Probe{}
+		for k, v := range r.Probes {
+			c.Probes[k] = v
+		}
+		if r.Err == "" && !hang {
+			for _, n := range []string{"env", "arg", "handler"} {
+				os.Remove(filepath.Join(dir, "p-"+n+".json"))
+			}
+			// retry / restart run in another process, later: the variable has changed
+			r2, hang2 := runJob(Job{Mode: "reload", Dir: dir, Params: r.Recorded, Names: names, NPos: npos, Env: []string{"C11VAR=beta"}}, 20*time.Second)
+			c.Hang = hang2
+			if r2.Err != "" {
+				c.Err = "reload: " + r2.Err
+			}
+			c.Params2 = r2.Params
+			if c.Params2 == nil {
+				c.Params2 = []string{}
+			}
+			for k, v := range r2.Probes {
+				c.Probes["re-"+k] = v
+			}
+		}
+	case "cli":
+		c.S = render(c.Items)
+		dir, err := os.MkdirTemp(base, "c")
+		if err != nil {
+			panic(err)
+		}
+		defer os.RemoveAll(dir)
+		names, npos := namesOf(c.Items)
+		// the worker exits through the command; what it did is in the probe files
+		_, hang := runJob(Job{Mode: "cli", Dir: dir, Params: `"` + c.S + `"`, Names: names, NPos: npos}, 30*time.Second)
+		c.Hang = hang
+		c.Probes = map[string]*Probe{}
+		for _, n := range []string{"env", "arg", "handler"} {
+			c.Probes[n] = readProbe(filepath.Join(dir, "p-"+n+".json"))
 		}
 	case "out":
 		dir, err := os.MkdirTemp(base, "o")
@@ -676,6 +746,15 @@ func genItems(r *vh.Rng, safe bool, maxn int) []Item {
 	return items
 }
 
+func noBacktick(items []Item) bool {
+	for _, it := range items {
+		if strings.Contains(it.Value, "`") {
+			return false
+		}
+	}
+	return true
+}
+
 func noSubst(items []Item) bool {
 	for _, it := range items {
 		if strings.ContainsAny(it.Value, "$`") {
@@ -814,7 +893,7 @@ func main() {
 		// outputs
 		b64 := func(b []byte) string { return base64.StdEncoding.EncodeToString(b) }
 		fixedOut := []string{"", "x", " x ", "\n", "a b\n", "a\nb\n", "  \"q\" 'r' \n", "k=v\n", "$HOME\n", "a\\nb\n", "\u00e9\u65e5\u672c\U0001F600\n",
-			"\u00a0x\u2003", "\u2028x\u3000\n", "\u200bx\u200b", "x\x85", "\xc2\x85x\xc2\x85", "\xe2\x80x", "x\xe2\x80\x80", "x\x80\x80", "\vx\f", "\x1cx\x1c", "OUT=1\n",
+			"\u00a0x\u2003", "\u2028x\u3000\n", "\u200bx\u200b", "x\x85", "\xc2\x85x\xc2\x85", "\xe2\x80x", "x\xe2\x80\x80", "x\x80\x80", "\vx\f", "\x1cx\x1c", "OUT=1\n", "a=b=c\n", "=x=", "k=v w=z\n",
 			"\u1680\u2000\u200a\u2029\u202f\u205fx\u1680\u2000\u200a\u2029\u202f\u205f", "\u180ex\u180e", "x\xe2\x80\xa8", "x\xe2\x80\xa7", "\xe2\x80\x8bx"}
 		for _, s := range fixedOut {
 			add(&Case{Stream: "out", Gen: "fixed", OutB64: b64([]byte(s)) })
@@ -827,13 +906,55 @@ func main() {
 			}
 			add(c)
 		}
-		for _, n := range []int{4095, 4096, 4097, 65535, 65536, 65537, 1 << 20} {
+		// 131067 bytes is the longest value execve takes in one NAME=value string (MAX_ARG_STRLEN 131072, "OUT=" and
+		// the terminating NUL included); the pattern has 6 bytes of white space that are trimmed
+		for _, n := range []int{4095, 4096, 4097, 65535, 65536, 65537, 131067 + 6, 131068 + 6, 1 << 20} {
 			add(&Case{Stream: "out", Gen: "size", Size: n})
 		}
 		if thorough {
 			for i := 0; i < 40; i++ {
 				add(&Case{Stream: "out", Gen: "size", Size: 8 + rng.Below(140000)})
 			}
+		}
+		// $C11VAR in parameter values
+		substFixed := [][]Item{
+			{{Kind: "nw", Name: "TARGET", Value: "${C11VAR}"}},
+			{{Kind: "w", Value: "$C11VAR"}, {Kind: "nw", Name: "T", Value: "pre-$C11VAR"}},
+			{{Kind: "nq", Name: "Q", Value: "${C11VAR}/x"}, {Kind: "w", Value: "plain"}},
+			{{Kind: "q", Value: "${C11VAR}"}, {Kind: "nw", Name: "Z", Value: "a-${C11VAR}-b"}},
+		}
+		for _, it := range substFixed {
+			add(&Case{Stream: "subst", Gen: "fixed", Items: it})
+		}
+		for i := pick(6, 200); i > 0; i-- {
+			its := genItems(rng, true, 3)
+			for k := range its {
+				if !strings.ContainsAny(its[k].Value, " \t\n\"'\\`$") && rng.Chance(2, 3) {
+					its[k].Value = []string{"${C11VAR}", "$C11VAR", its[k].Value + "-${C11VAR}", "${C11VAR}." + its[k].Value}[rng.Below(4)]
+				}
+			}
+			if noBacktick(its) {
+				add(&Case{Stream: "subst", Gen: "random", Items: its})
+			}
+		}
+		// the command line entry point with the API client's wrapping
+		cliFixed := [][]Item{
+			{{Kind: "q", Value: "a b"}, {Kind: "w", Value: "c"}, {Kind: "q", Value: "d e"}},
+			{{Kind: "q", Value: "a b"}},
+			{{Kind: "w", Value: "x"}, {Kind: "nq", Name: "N", Value: "p q"}},
+			{{Kind: "nq", Name: "N", Value: "p q"}, {Kind: "w", Value: "x"}},
+			{{Kind: "q", Value: ""}, {Kind: "w", Value: "y"}, {Kind: "q", Value: ""}},
+		}
+		for _, it := range cliFixed {
+			add(&Case{Stream: "cli", Gen: "fixed", Items: it})
+		}
+		for i := pick(6, 150); i > 0; {
+			it := genItems(rng, true, 3)
+			if !noSubst(it) || strings.ContainsAny(render(it), "\n\r") {
+				continue
+			}
+			add(&Case{Stream: "cli", Gen: "random", Items: it})
+			i--
 		}
 	}
 
